@@ -484,6 +484,41 @@ def redispatch_targets(handler, model=None, names=None, _depth=0):
     return out
 
 
+ACCEPTED_FORMATTER_RAISES = {
+    ("Formatter.print", "NotImplementedError"): "abstract method of the base class; every concrete formatter overrides it",
+    ("PyObjFormatter.print_Call", "NotImplementedError"): "keyword arguments of a call: ASTBuilder builds an empty CallKeywords for every call "
+                                                         "(fickling's reconstruction of pickles never emits keywords), so the branch is not reached from files",
+}
+
+
+def h2b(ctx):
+    m = ctx.model
+    ctx.rule("H2b", "formatters do not refuse values: a method of a formatter class raises only where this table accepts it (two entries, "
+                    "each with its reason) - a handler or helper that raises when the value it is printing has some property (a "
+                    "non-finite float, an odd character) ends the rendering of every document that contains such a value")
+    F = m.need_class("Formatter")
+    n = 0
+    for fq, f in sorted(m.functions.items()):
+        if not (f.cls and m.is_subclass(f.cls, F)):
+            continue
+        for r in walk_no_nested(f.node):
+            if not isinstance(r, ast.Raise):
+                continue
+            n += 1
+            exc = call_name(r.exc) if isinstance(r.exc, ast.Call) else (dotted(r.exc) if r.exc is not None else "re-raise")
+            in_handler = any(isinstance(a_, ast.ExceptHandler) for a_ in ancestors(r))
+            if (f.short, exc) in ACCEPTED_FORMATTER_RAISES or (r.exc is None and in_handler):
+                ctx.proved("H2b", f.file, f.short, r, f"{f.short}: raise {exc}", ACCEPTED_FORMATTER_RAISES.get((f.short, exc), "re-raise inside a handler"),
+                           nontrivial=False)
+                continue
+            conds = [norm(t, 50) for t, pol in flatten_conditions(dominating_conditions(r))]
+            ctx.violation("H2b", f.file, f.short, r, f"{f.short}: raise {exc}",
+                          f"`{norm(r, 60)}` in a formatter method" + (f" (when {' and '.join(conds)})" if conds else "") +
+                          ": the loaders produce values of every kind the test can speak about (json and yaml read NaN and Infinity), so a "
+                          "document containing one cannot be rendered in this format, in any mode, with or without differences")
+    ctx.floor("H2b", n, 1, "raise statements in formatter classes")
+
+
 def e5_cycles(ctx, roots, node_classes):
     m = ctx.model
     ctx.rule("E5c", "no dispatch cycle: when the handler the protocol selects for a class merely forwards the same node "
@@ -1032,6 +1067,19 @@ def _object_encoders(m, fi, pname, depth=0):
                 continue
             r = m.resolve_expr(fi.module, c.func)
             name = r[0][1] if r and r[0] and r[0][0] == "ext" else None
+            if name not in ENCODER_DOMAINS and name not in TOTAL_ENCODERS and isinstance(c.func, ast.Attribute) and c.func.attr == "encode" \
+                    and isinstance(c.func.value, ast.Name):
+                # `_ENC = json.JSONEncoder(...)` at module level, `_ENC.encode(x)`: json.dumps(x, ...) with the constructor's keywords
+                for st_ in m.mods[fi.module].body:
+                    if isinstance(st_, ast.Assign) and len(st_.targets) == 1 and dotted(st_.targets[0]) == c.func.value.id and isinstance(st_.value, ast.Call):
+                        r2 = m.resolve_expr(fi.module, st_.value.func)
+                        n2 = r2[0][1] if r2 and r2[0] and r2[0][0] == "ext" else None
+                        if n2 in ("json.JSONEncoder", "json.encoder.JSONEncoder"):
+                            name = "json.dumps"
+                            c2 = ast.Call(func=c.func, args=c.args, keywords=st_.value.keywords)
+                            ast.copy_location(c2, c)
+                            c2._parent = getattr(c, "_parent", None)
+                            c = c2
             if name in ENCODER_DOMAINS or name in TOTAL_ENCODERS:
                 out.append((name, c, fi))
             elif isinstance(c.func, ast.Attribute) and dotted(c.func.value) in ("self", "cls") and fi.cls and depth < 2:
@@ -1233,6 +1281,7 @@ def run(ctx):
     h9b(ctx)
     h12(ctx)
     h13(ctx)
+    h2b(ctx)
     # recorded defects of the builders that end a comparison with a traceback for valid input of a supported type
     from .c18 import r18d, r18i
     r18d(ctx)         # a YAML document with a recursive alias (`&l [1, 2, *l]`) recurses until RecursionError
